@@ -14,7 +14,12 @@ fn bytes_for(rng: &mut Rng, k: usize) -> Vec<u8> {
         3 => rng.range(4000, 20000),
         _ => rng.range(0, 2500),
     };
-    match k % 5 {
+    match k % 11 {
+        // mostly zero with sparse small values: the input lasts into interfaces, objects, extensions and operations
+        // instead of being consumed by names (a seeded change showed that high-entropy bytes end in the all-defaults tail)
+        5 | 8 => { let len = len.max(256); (0..len).map(|_| if rng.chance(1, 8) { (rng.next() % 6) as u8 } else { 0 }).collect() }
+        6 | 9 => { let len = len.max(256); (0..len).map(|_| if rng.chance(1, 4) { (rng.next() % 16) as u8 } else { 0 }).collect() }
+        7 | 10 => { let len = len.max(512); (0..len).map(|_| if rng.chance(1, 16) { rng.next() as u8 } else if rng.chance(1, 3) { 1 } else { 0 }).collect() }
         0 => (0..len).map(|_| rng.next() as u8).collect(),
         1 => (0..len).map(|_| (rng.next() % 4) as u8).collect(),                     // low entropy
         2 => { let pat: Vec<u8> = (0..rng.range(1, 7)).map(|_| rng.next() as u8).collect(); (0..len).map(|i| pat[i % pat.len()]).collect() }
@@ -154,16 +159,16 @@ pub fn record(args: &[String]) {
                 let v = guarded(move || match ast::Document::parse(t2, "smith.graphql") {
                     Ok(ast) => {
                         let valid = match ast.to_mixed_validate() {
-                            Ok(_) => (true, String::new()),
-                            Err(e) => (false, e.to_string().lines().take(6).collect::<Vec<_>>().join(" | ")),
+                            Ok(_) => (true, String::new(), vec![]),
+                            Err(e) => (false, e.to_string().lines().take(6).collect::<Vec<_>>().join(" | "), e.iter().map(|d| d.error.to_string()).collect::<Vec<_>>()),
                         };
-                        (true, valid.0, valid.1, facts(&ast))
+                        (true, valid.0, valid.1, valid.2, facts(&ast))
                     }
-                    Err(e) => (false, false, e.errors.to_string().lines().take(4).collect::<Vec<_>>().join(" | "), facts(&e.partial)),
+                    Err(e) => (false, false, e.errors.to_string().lines().take(4).collect::<Vec<_>>().join(" | "), e.errors.iter().map(|d| d.error.to_string()).collect::<Vec<_>>(), facts(&e.partial)),
                 });
                 match v {
-                    Ok((parse_ok, valid, msg, f)) => out.line(&json!({"what": "document", "crash": false, "exhausted": false, "sameAgain": same, "parseOk": parse_ok, "valid": valid,
-                        "message": msg, "facts": f, "len": bytes.len(), "limits": limits, "depth": brace_depth(&text), "text": text, "bytes": hex})),
+                    Ok((parse_ok, valid, msg, errs, f)) => out.line(&json!({"what": "document", "crash": false, "exhausted": false, "sameAgain": same, "parseOk": parse_ok, "valid": valid,
+                        "message": msg, "errors": errs, "facts": f, "len": bytes.len(), "limits": limits, "depth": brace_depth(&text), "text": text, "bytes": hex})),
                     Err(p) => out.line(&json!({"what": "document", "crash": true, "panic": p, "exhausted": false, "len": bytes.len(), "limits": limits, "text": text, "bytes": hex})),
                 }
             }
